@@ -140,6 +140,9 @@ func (r *rig) obs(capUniverse, nicks, chans []string) string {
 	sort.Strings(cur)
 	tk := "none"
 	if t := r.conn.StateTracker(); t != nil {
+		if me != nil {
+			nicks = dedup(append(append([]string(nil), nicks...), me.Nick))
+		}
 		tk = observe(t, nicks, chans)
 	}
 	return fmt.Sprintf("menil=%s me=%s sup=[%s] cur=[%s] tracker=%s", menil, meStr, strings.Join(sup, ";"), strings.Join(cur, ";"), tk)
